@@ -397,7 +397,15 @@ func kBuildContainer(extraMounts func(b *mount.Builder), cred container.CredGene
 		extraMounts(mb)
 	}
 	b := container.Builder{Root: root, Mounts: mb.FilterNotExist().Mounts, Stderr: stderr, CredGenerator: cred}
-	env, err := b.Build()
+	var env container.Environment
+	for attempt := 0; attempt < 4; attempt++ {
+		// Build pings the new init with a 3 s deadline; on a fully loaded machine that can expire
+		env, err = b.Build()
+		if err == nil {
+			break
+		}
+		time.Sleep(200 * time.Millisecond)
+	}
 	if err != nil {
 		os.Remove(root)
 		return nil, err
